@@ -1,6 +1,7 @@
 package dom
 
 import (
+	"encoding/json"
 	"errors"
 	"fmt"
 	"strconv"
@@ -37,6 +38,7 @@ type scriptConn struct {
 	mu     sync.Mutex
 	ch     chan *nats.Msg
 	subbed bool
+	npub   int
 	nc     *nats.Conn         // a real connection to the embedded server: subscriptions are real
 	sub    *nats.Subscription // so that their release can be observed
 }
@@ -44,6 +46,7 @@ type scriptConn struct {
 func (c *scriptConn) Publish(subject string, payload []byte) error { return nil }
 
 func (c *scriptConn) PublishRequest(subject, reply string, data []byte) error {
+	c.npub++
 	if !c.pubOK {
 		return errors.New("publish failed")
 	}
@@ -104,7 +107,9 @@ func (d *sendreqDom) Gen(r *gen.R, tier string, emit func(string)) {
 		ma, su, pu := "T", "T", "T"
 		switch r.Intn(12) {
 		case 0:
-			ma = "F"
+			ma = r.Pick([]string{"F", "B", "B"})
+		case 3:
+			ma = r.Pick([]string{"R", "N"})
 		case 1:
 			su = "F"
 		case 2:
@@ -245,9 +250,18 @@ func (d *sendreqDom) execNow(a []string) string {
 			}{t, a[i+1]})
 		}
 		var req interface{} = map[string]string{"cid": "x"}
-		if a[1] != "T" {
+		switch a[1] {
+		case "T":
+		case "R":
+			req = json.RawMessage(`{"cid":"x"}`) // an already encoded request
+		case "N":
+			req = nil
+		case "B":
+			req = json.RawMessage(`{"cid":`) // an encoded request that is not JSON: cannot be marshalled
+		default:
 			req = make(chan int) // cannot be marshalled
 		}
+		marshalOK := a[1] == "T" || a[1] == "R" || a[1] == "N"
 		var exts []string
 		var emu sync.Mutex
 		// SendRequest must return by the last possible deadline; a watchdog turns a hang into an outcome
@@ -275,8 +289,11 @@ func (d *sendreqDom) execNow(a []string) string {
 		switch {
 		case r.HasError() && r.Error.Code == res.CodeTimeout:
 			out = "timeout"
-		case r.HasError() && r.Error.Code == res.CodeInternalError && (a[1] != "T" || a[2] != "T" || a[3] != "T"):
+		case r.HasError() && r.Error.Code == res.CodeInternalError && (!marshalOK || a[2] != "T" || a[3] != "T"):
 			out = "internal"
+			if !marshalOK && c.npub > 0 {
+				out += "+published-although-the-request-cannot-be-encoded"
+			}
 		default:
 			// the returned response is the parse of the first non-pre message: identify which by its class
 			out = "resp:" + wire.Enc(identifyResp(c, r))
